@@ -7,7 +7,7 @@ set_option maxHeartbeats 8000000 in
 theorem TInv.client_base : ∀ a ∈ clientBase, TInv.Kept a := by
   intro a ha rt hg h s'
   have hal := alive_false rt
-  obtain ⟨i0, f1, f2, f3, d1, d2, d3, s1, s2, s3, sv, g4, g5, g8, p, jb, j1, j2, j3, ae, q, c1, c2, c3⟩ := h s'
+  obtain ⟨i0, f1, f2, f3, d1, d2, d3, s1, s2, s3, sv, g4, g5, g8, p, jb, j1, j2, j3, ae, q, nr, c1, c2, c3⟩ := h s'
   unfold clientBase at ha
   each_action ha
   client_expose
